@@ -183,7 +183,7 @@ func genC07Wire(t *rapid.T) c07Scen {
 	s := c07Scen{Mode: rapid.SampledFrom([]string{"overlap", "onlyonce"}).Draw(t, "mode"), PubVers: []int{4, 5}}
 	ns := rapid.IntRange(1, 3).Draw(t, "nsubscribers")
 	for i := 0; i < ns; i++ {
-		s.SubVers = append(s.SubVers, rapid.SampledFrom([]int{4, 5, 5}).Draw(t, "subv"))
+		s.SubVers = append(s.SubVers, rapid.SampledFrom([]int{3, 4, 5, 5, 5}).Draw(t, "subv"))
 	}
 	n := rapid.IntRange(2, 12).Draw(t, "nsteps")
 	var usedTopics []string
@@ -241,6 +241,12 @@ func (w wireMsg) String() string {
 }
 
 func runC07Wire(s c07Scen, c *ev.Case) *ev.Violation {
+	for _, v := range s.SubVers {
+		if v == 3 {
+			c.Label("mqtt31_client")
+			break
+		}
+	}
 	cfg := fixture.BaseConfig()
 	cfg.MQTT.DeliveryMode = s.Mode
 	b, err := fixture.Start(fixture.Opts{Config: cfg})
